@@ -248,6 +248,8 @@ struct SideResult {
     out: Option<Vec<u8>>,
     verdict: Option<bool>,
     count: Option<usize>,
+    /// (address, length) of the output buffer the FFI handed out (FFI side only)
+    raw: Option<(usize, usize)>,
 }
 
 pub struct Ctx {
@@ -365,7 +367,7 @@ fn rust_call(s: &mut Sides, call: &Call) -> SideResult {
     let has_out = !matches!(call, Call::SetTree { .. } | Call::SetLeaf { .. } | Call::DeleteLeaf { .. } | Call::SetNextLeaf { .. } | Call::SetLeavesFrom { .. }
         | Call::InitTree { .. } | Call::Atomic { .. } | Call::SeqAtomic { .. } | Call::SetMeta { .. } | Call::Flush | Call::LeavesSet
         | Call::Verify { .. } | Call::VerifyRln { .. } | Call::VerifyRoots { .. } | Call::VerifyBytes { .. });
-    SideResult { ok: r.is_ok(), out: if has_out && r.is_ok() { Some(out) } else { None }, verdict: if r.is_ok() { verdict } else { None }, count }
+    SideResult { ok: r.is_ok(), out: if has_out && r.is_ok() { Some(out) } else { None }, verdict: if r.is_ok() { verdict } else { None }, count, raw: None }
 }
 
 fn verify_input(m: &[u8], sig: &[u8], flip: i64, cut: i64) -> Vec<u8> {
@@ -499,7 +501,8 @@ fn ffi_call(s: &mut Sides, call: &Call) -> SideResult {
         Call::RecoverBytes { a, b } => ffi::recover_id_secret(ctx, &buf(a), &buf(b), &mut ob),
     };
     let out = if has_out { read_out(&ob) } else { None };
-    SideResult { ok, out, verdict: if verdict_touched { Some(verdict_cell) } else { None }, count }
+    let raw = if has_out && out.is_some() && !ob.ptr.is_null() && ob.len > 0 && ob.len <= (1 << 26) { Some((ob.ptr as usize, ob.len)) } else { None };
+    SideResult { ok, out, verdict: if verdict_touched { Some(verdict_cell) } else { None }, count, raw }
 }
 
 /// Runs an FFI verification twice with the verdict cell preset to false and to true: the cell is
@@ -685,6 +688,7 @@ pub fn run_trace(trace: &Trace, ctx: &mut Ctx) -> RunOutcome {
             break;
         }};
     }
+    let mut retained: Vec<(usize, usize, Vec<u8>, usize, &'static str)> = Vec::new();
     for (si, step) in trace.steps.iter().enumerate() {
         let call = &step.call;
         ctx.counters.inc(&format!("call.{}", call.kind()));
@@ -741,6 +745,28 @@ pub fn run_trace(trace: &Trace, ctx: &mut Ctx) -> RunOutcome {
         let proof_dependent = matches!(call, Call::VerifyRln { flip, .. } if *flip >= 0) || matches!(call, Call::Prove { .. });
         if !proof_dependent {
             ctx.log.add(&[rr.ok as u8, fr.ok as u8]);
+        }
+        // a buffer handed out by an earlier call keeps designating the bytes of that call (the FFI gives each output its own
+        // allocation, which the caller owns from then on): re-read every retained buffer after every later call
+        if let (true, Some((addr, len)), Some(bytes)) = (fr.ok, fr.raw, fr.out.as_ref()) {
+            if retained.len() >= 48 {
+                retained.remove(0);
+            }
+            retained.push((addr, len, bytes.clone(), si, call.kind()));
+        }
+        {
+            let mut stale: Option<String> = None;
+            for (addr, len, bytes, at, kind) in retained.iter() {
+                let now = unsafe { std::slice::from_raw_parts(*addr as *const u8, *len) };
+                if now != &bytes[..] {
+                    stale = Some(format!("the output buffer returned by {kind} at step {at} ({} bytes at {:#x}) held {} then and holds {} after this call", len, addr, hex(&bytes[..bytes.len().min(24)]), hex(&now[..now.len().min(24)])));
+                    break;
+                }
+            }
+            ctx.counters.add("retained_output_buffers_rechecked", retained.len() as u64);
+            if let Some(d) = stale {
+                fail!(si, call, "earlier_output_changed", d);
+            }
         }
         if rr.ok != fr.ok {
             fail!(si, call, "flag", format!("Rust API returned {} but the FFI flag is {}", if rr.ok { "Ok" } else { "Err" }, fr.ok));
